@@ -162,12 +162,16 @@ def runSpecial (env : Env) (v : Vec) (name : String) (args : List Nat) (o : List
     pure ((pack showYields (drain env.bombs v s e script fin)).map (fun (a, b, _) => (a, b, o)), false)
   | "splice", [a, b] => do
     let src ← (kvOf rest "src").bind parseCsv
-    let pulls := ((kvOf rest "pulls").bind String.toNat?).getD 0
+    -- `pulls=fbbf…`: `next()` / `next_back()` on the `Splice` (a number `k` is read as `k` front pulls)
+    let ptxt := (kvOf rest "pulls").getD "-"
+    let script ← match ptxt.toNat? with
+      | some k => some (List.replicate k Pull.front)
+      | none => parseScript ptxt
     let hint := ((kvOf rest "hint").bind String.toNat?).getD 1000000
     -- `lie=<n>`: the source reports `size_hint().0 = n` whatever it has left; `maxcap=`: `isize::MAX / size_of::<T>()`
     let lie := (kvOf rest "lie").bind String.toNat?
     let maxCap := ((kvOf rest "maxcap").bind String.toNat?).getD (2 ^ 59)
-    pure ((pack showYields (splice env v a b src hint lie maxCap (List.replicate pulls Pull.front))).map (fun (a, b, _) => (a, b, o)), false)
+    pure ((pack showYields (splice env v a b src hint lie maxCap script)).map (fun (a, b, _) => (a, b, o)), false)
   | "into_flattened", [] => (runFlatten v o rest).map (·, false)
   | "extend_iter", [] => do
     let src ← (kvOf rest "src").bind parseCsv
